@@ -405,6 +405,35 @@ def adversarial_step(rng, g: gen.DocGen, doc: Node, docs) -> Step:
                     break
         other = rng.choice(docs)
         sl = g.slice_from(other)
+        if rng.random() < 0.3:
+            # a gap that is open on exactly ONE side (its ends at different depths), around which the step is
+            # otherwise consistent: ends of the step inside sibling textblocks, a two-node slice open 1/1 with
+            # the insertion point on the seam between the two nodes
+            ps = boundary_positions(doc)
+            for _ in range(12):
+                x, y = sorted((rng.choice(ps), rng.choice(ps)))
+                if x == y:
+                    continue
+                try:
+                    gp = doc.slice(x, y)
+                    rx, ry = doc.resolve(x), doc.resolve(y)
+                except ValueError:
+                    continue
+                if (gp.open_start == 0) == (gp.open_end == 0):
+                    continue
+                lo = [p for p in ps if p <= x and doc.resolve(p).depth == max(rx.depth, ry.depth)]
+                hi = [p for p in ps if p >= y and doc.resolve(p).depth == max(rx.depth, ry.depth)]
+                if not lo or not hi:
+                    continue
+                a, c, gf, gt = rng.choice(lo[-3:]), rng.choice(hi[:3]), x, y
+                par = (rx if rx.depth >= ry.depth else ry).parent
+                try:
+                    two = Fragment.from_([par.type.create(par.attrs, sc.text("X") if par.type.inline_content else None),
+                                          par.type.create(par.attrs, sc.text("Y") if par.type.inline_content else None)])
+                    sl2 = Slice(two, 1, 1)
+                    return ReplaceAroundStep(a, c, gf, gt, sl2, two.child(0).node_size - 1, rng.random() < 0.2)
+                except ValueError:
+                    break
         if rng.random() < 0.6:
             # wrapper-like slices: a closed or open node around the gap
             pool = [nd for _, nd in all_positions_with_nodes(other) if not nd.is_leaf and not nd.is_text]
@@ -437,6 +466,25 @@ def adversarial_step(rng, g: gen.DocGen, doc: Node, docs) -> Step:
     if doc.type.attrs:
         return DocAttrStep(rng.choice(list(doc.type.attrs)), rng.choice([None, 1, "x"]))
     return RemoveMarkStep(a, c, rand_mark(rng, sc))
+
+
+def node_level_steps(rng, doc, sc, limit=6):
+    """one attribute step for (up to `limit`) nodes that declare attributes — in particular node types with
+    REQUIRED content (ordered_list/order, figure...), which random sampling rarely picks — and node-mark
+    steps on non-text nodes"""
+    pn = [(p, nd) for p, nd in all_positions_with_nodes(doc) if not nd.is_text and nd.type.attrs]
+    rng.shuffle(pn)
+    # prefer node types whose content expression does not accept the empty sequence
+    pn.sort(key=lambda x: 0 if not x[1].type.content_match.valid_end else 1)
+    out = []
+    for p, nd in pn[:limit]:
+        an = rng.choice(list(nd.type.attrs))
+        out.append(AttrStep(p, an, rng.choice([1, 2, 3]) if an in ("level", "order") else rng.choice([1, "s", None])))
+    nm = [(p, nd) for p, nd in all_positions_with_nodes(doc) if not nd.is_text]
+    rng.shuffle(nm)
+    for p, nd in nm[:2]:
+        out.append((AddNodeMarkStep if rng.random() < 0.6 else RemoveNodeMarkStep)(p, rand_mark(rng, sc)))
+    return out
 
 
 def undeclared_attr_step(rng, doc):
